@@ -454,6 +454,42 @@ func clip(b []byte) []byte {
 	return b
 }
 
+// asResponseTo makes the bytes that are served look like a response to the query that was received, as far as that
+// can be done without re-encoding them: the query's id, QR=1 and - when the body's first question names the same
+// name - the query's type and class. (One input is served for the HTTPS, the A and the AAAA query of a Resolve call;
+// a DoH client may refuse a message that does not answer its query.) Bodies that cannot be patched are served as
+// they are.
+func asResponseTo(query, body []byte) []byte {
+	if len(query) < 12 || len(body) < 12 {
+		return body
+	}
+	out := append([]byte{}, body...)
+	out[0], out[1] = query[0], query[1]
+	out[2] |= 0x80
+	endOfName := func(b []byte) int { // offset just behind the uncompressed name that starts at 12, or -1
+		i := 12
+		for i < len(b) {
+			l := int(b[i])
+			switch {
+			case l == 0:
+				return i + 1
+			case l >= 64:
+				return -1
+			}
+			i += 1 + l
+		}
+		return -1
+	}
+	qe, be := endOfName(query), endOfName(out)
+	if qe < 0 || be < 0 || qe+4 > len(query) || be+4 > len(out) || int(out[4])<<8|int(out[5]) != 1 {
+		return out
+	}
+	if strings.EqualFold(string(query[12:qe]), string(out[12:be])) {
+		copy(out[be:be+4], query[qe:qe+4])
+	}
+	return out
+}
+
 func TestCheck(t *testing.T) {
 	r := mon.Start(t, "C12", "exploration")
 	defer r.Finish()
@@ -584,8 +620,8 @@ func TestCheck(t *testing.T) {
 		// resolver drives, in this process: only inputs known to decode within bounds
 		var body atomic.Pointer[[]byte]
 		srv := httptest.NewUnstartedServer(http.HandlerFunc(func(w http.ResponseWriter, req *http.Request) {
-			io.Copy(io.Discard, req.Body)
-			p := *body.Load()
+			query, _ := io.ReadAll(io.LimitReader(req.Body, 65536))
+			p := asResponseTo(query, *body.Load())
 			w.Header().Set("Content-Type", "application/dns-message")
 			w.Header().Set("Content-Length", strconv.Itoa(len(p)))
 			w.WriteHeader(200) // never 5xx: the DoH client would retry for seconds
